@@ -40,7 +40,7 @@ type Dg struct {
 }
 
 type Ev struct {
-	Kind string `json:"k"` // "hs", "age" (keypair creation moved Secs s + Ms ms into the past), "idle" (Ms ms of real time pass), "dg"
+	Kind string `json:"k"` // "hsu" (handshake without the confirming keepalive), "restart" (Down + Up), "hs", "age" (keypair creation moved Secs s + Ms ms into the past), "idle" (Ms ms of real time pass), "dg"
 	Peer int    `json:"peer,omitempty"`
 	Secs int    `json:"secs,omitempty"`
 	Ms   int    `json:"ms,omitempty"`
@@ -141,6 +141,33 @@ func run(sc *Scenario) {
 			sessions = append(sessions, &sess{ev.Peer, s})
 			ev.Serial = len(sessions)
 			ev.DevIdx = s.RemoteIdx
+		case "hsu":
+			p := peers[ev.Peer]
+			w.Dev.VerifShiftHandshakeTimes(cosim.NoisePK(p.Pub), time.Second)
+			_, out, s, err := w.RefInitiates(p, p.Addr, ref.Tai64n(time.Now()))
+			if err != nil || !out.Settled {
+				sc.Discarded = fmt.Sprintf("handshake %d: %v", ei, err)
+				return
+			}
+			for _, x := range out.Written {
+				ev.Writes = append(ev.Writes, x.Data)
+			}
+			sessions = append(sessions, &sess{ev.Peer, s})
+			ev.Serial = len(sessions)
+			ev.DevIdx = s.RemoteIdx
+		case "restart":
+			w.Dev.Down()
+			o1 := w.Take()
+			w.Dev.Up()
+			o2 := w.Take()
+			if !o1.Settled || !o2.Settled {
+				sc.Discarded = "unsettled"
+				poisoned = true
+				return
+			}
+			for _, x := range append(o1.Written, o2.Written...) {
+				ev.Writes = append(ev.Writes, x.Data)
+			}
 		case "age":
 			w.Dev.VerifShiftKeypairAges(cosim.NoisePK(peers[ev.Peer].Pub), time.Duration(ev.Secs)*time.Second+time.Duration(ev.Ms)*time.Millisecond)
 			aged = time.Now()
@@ -236,6 +263,8 @@ type gsess struct {
 	next   uint64   // next unused counter going forward
 	max    uint64   // greatest counter used
 	used   []uint64 // counters sent so far
+	unconf bool     // offered by the device, not yet used by us
+	dead   bool     // from before a restart of the interface
 }
 
 type gen struct {
@@ -365,6 +394,9 @@ func (g *gen) live() []*gsess {
 	cnt := map[int]int{}
 	for i := len(g.all) - 1; i >= 0; i-- {
 		s := g.all[i]
+		if s.unconf || s.dead {
+			continue
+		}
 		if cnt[s.peer] < 2 {
 			out = append(out, s)
 		}
@@ -412,7 +444,20 @@ func (g *gen) note(s *gsess, c uint64) {
 func (g *gen) datagram() Dg {
 	r := g.r
 	live := g.live()
-	if len(g.all) == 0 {
+	var dead []*gsess
+	for _, s := range g.all {
+		if s.dead {
+			dead = append(dead, s)
+		}
+	}
+	if len(dead) > 0 && (len(live) == 0 || r.Intn(8) == 0) { // a session from before the restart: must be refused
+		s := dead[r.Intn(len(dead))]
+		pl, note := g.plain(s.peer)
+		c := s.next
+		g.note(s, c)
+		return Dg{Sess: s.serial, IdxOf: s.serial, Ctr: c, Plain: pl, Note: "pre-restart/" + note}
+	}
+	if len(live) == 0 {
 		return Dg{Raw: true, TypeWord: 4, RawLen: 31, Note: "raw"}
 	}
 	s := live[r.Intn(len(live))]
@@ -442,6 +487,9 @@ func (g *gen) datagram() Dg {
 			d.Idx = 0
 		default:
 			o := g.all[r.Intn(len(g.all))] // any session ever made, also rotated-out ones
+			if o.unconf {
+				o = s
+			}
 			d.IdxOf = o.serial
 			if o == s {
 				g.note(s, d.Ctr)
@@ -450,6 +498,9 @@ func (g *gen) datagram() Dg {
 		return d
 	case x < 85: // sealed under another session's key
 		o := g.all[r.Intn(len(g.all))]
+		if o.unconf {
+			o = s
+		}
 		d := Dg{Sess: o.serial, IdxOf: s.serial, Ctr: s.next, Plain: pl, Note: "key/" + note}
 		if o == s {
 			g.note(s, d.Ctr)
@@ -471,8 +522,33 @@ func (g *gen) datagram() Dg {
 }
 
 func (g *gen) hs(p int) Ev {
+	for _, s := range g.all {
+		if s.peer == p && s.unconf {
+			s.unconf, s.dead = false, true // the offer is replaced: from now on it is just a stale session
+		}
+	}
 	g.all = append(g.all, &gsess{peer: p, serial: len(g.all) + 1, next: 1, used: []uint64{0}})
 	return Ev{Kind: "hs", Peer: p}
+}
+
+func (g *gen) hsu(p int) Ev {
+	for _, s := range g.all {
+		if s.peer == p && s.unconf {
+			s.unconf, s.dead = false, true
+		}
+	}
+	g.all = append(g.all, &gsess{peer: p, serial: len(g.all) + 1, next: 0, unconf: true})
+	return Ev{Kind: "hsu", Peer: p}
+}
+
+// the first message under an offered session confirms it; it travels alone (the rotation it causes
+// would race with index lookups of later datagrams of the same batch)
+func (g *gen) confirm(s *gsess) Ev {
+	pl, note := g.plain(s.peer)
+	c := s.next + uint64(g.r.Intn(2))
+	g.note(s, c)
+	s.unconf = false
+	return Ev{Kind: "dg", Dgs: []Dg{{Sess: s.serial, IdxOf: s.serial, Ctr: c, Plain: pl, Note: "first-under-offered/" + note}}}
 }
 
 func genScenario(r *rand.Rand, big bool) *Scenario {
@@ -491,7 +567,34 @@ func genScenario(r *rand.Rand, big bool) *Scenario {
 		}
 	}
 	n := 6 + r.Intn(14)
+	restarts := 0
+	if r.Intn(3) == 0 {
+		restarts = 1 + r.Intn(2)
+		n += 5
+	}
 	for i := 0; i < n; i++ {
+		var pending *gsess
+		for _, s := range g.all {
+			if s.unconf && !s.dead {
+				pending = s
+			}
+		}
+		if pending != nil && r.Intn(2) == 0 {
+			sc.Evs = append(sc.Evs, g.confirm(pending))
+			continue
+		}
+		if restarts > 0 && r.Intn(7) == 0 {
+			restarts--
+			sc.Evs = append(sc.Evs, Ev{Kind: "restart"})
+			for _, s := range g.all {
+				s.dead = true
+			}
+			continue
+		}
+		if r.Intn(9) == 0 {
+			sc.Evs = append(sc.Evs, g.hsu(r.Intn(sc.NPeers)))
+			continue
+		}
 		switch x := r.Intn(100); {
 		case x < 76:
 			k := 1 + r.Intn(6)
@@ -628,6 +731,29 @@ func directed() []*Scenario {
 	}
 	sc2.Evs = append(sc2.Evs, ev)
 	out = append(out, sc2)
+	// restart of the interface at every stage of a handshake: previous, current and an offered (unconfirmed) key
+	// all end with Down; nothing under them is delivered after Up until a new handshake
+	pk := func(n int) []byte { return ref.Pad(v4([4]byte{10, 1, 1, 1}, n)) }
+	sc4 := &Scenario{Gen: "directed-restart", NPeers: 2, BindBatch: 4, Table: tbl}
+	sc4.Evs = []Ev{{Kind: "hs", Peer: 0}, {Kind: "hs", Peer: 0}, // 1 previous, 2 current
+		{Kind: "dg", Dgs: []Dg{{Sess: 1, IdxOf: 1, Ctr: 1, Plain: pk(30)}, {Sess: 2, IdxOf: 2, Ctr: 1, Plain: pk(31)}}},
+		{Kind: "hsu", Peer: 0}, // 3 offered: previous (1) is dropped at once
+		{Kind: "dg", Dgs: []Dg{{Sess: 1, IdxOf: 1, Ctr: 2, Plain: pk(32), Note: "dropped-by-new-offer"}, {Sess: 2, IdxOf: 2, Ctr: 2, Plain: pk(33)}}},
+		{Kind: "dg", Dgs: []Dg{{Sess: 3, IdxOf: 3, Ctr: 0, Plain: pk(34), Note: "first-under-offered"}}}, // 3 current, 2 previous
+		{Kind: "dg", Dgs: []Dg{{Sess: 2, IdxOf: 2, Ctr: 3, Plain: pk(35)}, {Sess: 3, IdxOf: 3, Ctr: 1, Plain: pk(36)}}},
+		{Kind: "hsu", Peer: 0}, // 4 offered; 2 dropped
+		{Kind: "hs", Peer: 1},  // 5
+		{Kind: "restart"},
+		{Kind: "dg", Dgs: []Dg{{Sess: 2, IdxOf: 2, Ctr: 4, Plain: pk(37), Note: "pre-restart"}, {Sess: 3, IdxOf: 3, Ctr: 2, Plain: pk(38), Note: "pre-restart"},
+			{Sess: 4, IdxOf: 4, Ctr: 0, Plain: pk(39), Note: "pre-restart-offered"}, {Sess: 5, IdxOf: 5, Ctr: 1, Plain: ref.Pad(v4([4]byte{10, 1, 2, 1}, 40)), Note: "pre-restart"}}},
+		{Kind: "hs", Peer: 0}, // 6
+		{Kind: "dg", Dgs: []Dg{{Sess: 4, IdxOf: 4, Ctr: 1, Plain: pk(41), Note: "pre-restart-offered"}, {Sess: 6, IdxOf: 6, Ctr: 1, Plain: pk(42)}}},
+		{Kind: "hsu", Peer: 1}, // 7 offered
+		{Kind: "restart"},
+		{Kind: "dg", Dgs: []Dg{{Sess: 7, IdxOf: 7, Ctr: 0, Plain: ref.Pad(v4([4]byte{10, 1, 2, 1}, 43)), Note: "pre-restart-offered"}}},
+		{Kind: "dg", Dgs: []Dg{{Sess: 6, IdxOf: 6, Ctr: 2, Plain: pk(44), Note: "pre-restart"}}},
+	}
+	out = append(out, sc4)
 	// "live session key" at ARRIVAL time: the key is 179 s old when the socket goes idle, the control datagram
 	// right after the shift is accepted (age ~179.0 s), then 2 s of silence carry the key across RejectAfterTime,
 	// and the first datagram after the gap must be refused (age ~181 s) although the receive routine went to sleep
@@ -661,6 +787,10 @@ func gallina(sc *Scenario) string {
 		switch ev.Kind {
 		case "hs":
 			fmt.Fprintf(&b, "RHs %d %d %d", ev.Peer, ev.DevIdx, ev.Serial)
+		case "hsu":
+			fmt.Fprintf(&b, "RHsu %d %d %d", ev.Peer, ev.DevIdx, ev.Serial)
+		case "restart":
+			b.WriteString("RRestart")
 		case "age":
 			fmt.Fprintf(&b, "RAge %d %d", ev.Peer, ev.Secs*1000+ev.Ms)
 		case "idle": // every keypair of every peer grows older
